@@ -644,3 +644,153 @@ def mutate(rng, toks, kind=None):
 def hx(s):
     b = s.encode("utf-8") if isinstance(s, str) else s
     return b.hex() if b else "-"
+
+
+# ---------------------------------------------------------------------- printer tie (C15)
+# Concrete syntax trees of types in the shape of fam/idl/coq/Print.v (a layout = the tree with the blank / separator /
+# quote choice at every slot), serialized for the model runner's `print-type` entry, with the text printed HERE by
+# plain string concatenation (independently of the Coq printer) and the canonical tree of the erased type.
+
+def _hx(b):
+    return b.hex() if b else "-"
+
+
+def cst_blank(rng, mandatory=False, p_empty=0.4):
+    """(serialized, text) of a blank in the normal form Print.v demands: maximal white-space runs, a line comment is
+    followed by a white-space run that begins with the newline"""
+    if not mandatory and rng.random() < p_empty:
+        return "b0", ""
+    atoms = []
+    n = rng.choice([1, 1, 2, 3, 5])
+    prev = None
+    while len(atoms) < n or prev in ("l", "h"):
+        kinds = ["w", "l", "h", "k"] if prev != "w" else ["l", "h", "k"]
+        if prev in ("l", "h"):
+            kinds = ["w"]
+        k = rng.choice(kinds)
+        if k == "w":
+            ws = "".join(rng.choice(" \t\r\n") for _ in range(rng.choice([1, 1, 2, 4])))
+            if prev in ("l", "h"):
+                ws = "\n" + ws[1:]
+            atoms.append(("w", ws))
+        elif k in ("l", "h"):
+            body = "".join(rng.choice(["a", " ", "*", "/", "#", "'", '"', "<", ">", "é", "\t", "list", "//", "/*", "*/"]) for _ in range(rng.choice([0, 1, 4, 9])))
+            atoms.append((k, body))
+        else:
+            body = "".join(rng.choice(["a", " ", "*", "/ ", "#", "'", '"', "<", ">", "é", "\n", "*", "**", "//", "/*"]) for _ in range(rng.choice([0, 1, 4, 9])))
+            while "*/" in body:
+                body = body.replace("*/", "* /")
+            atoms.append(("k", body))
+        prev = k
+    ser = "b%d" % len(atoms) + "".join(" %s%s" % (k, _hx(t.encode("utf-8"))) for k, t in atoms)
+    text = "".join(t if k == "w" else ("//" + t if k == "l" else ("#" + t if k == "h" else "/*" + t + "*/")) for k, t in atoms)
+    return ser, text
+
+
+def cst_lit(rng):
+    dq = rng.random() < 0.5
+    q = '"' if dq else "'"
+    other = "'" if dq else '"'
+    body = "".join(rng.choice(["a", "Z", "0", " ", "<", ">", "#", "//", "/*", other, "\\n", "\\\\", "\\'", '\\"', "é", "\n"])
+                   for _ in range(rng.choice([0, 0, 1, 3, 8])))
+    return ("Q" if dq else "q") + _hx(body.encode("utf-8")), q + body + q, lit_canon(body)
+
+
+def cst_sep(rng):
+    k = rng.choice(["0", "0", ",", ";"])
+    if k == "0":
+        return "s0", ""
+    bs, bt = cst_blank(rng)
+    return "s%s %s" % (k, bs), k + bt
+
+
+def cst_ident(rng, forbid=()):
+    g = Gen(rng)
+    return g.ident(forbid)
+
+
+def cst_path(rng, forbid_first=()):
+    h = cst_ident(rng, forbid_first)
+    n = rng.choice([0, 0, 0, 1, 2])
+    ser, text, canon = _hx(h.encode()), h, h
+    ser = "i" + ser
+    parts = []
+    for _ in range(n):
+        b1s, b1t = cst_blank(rng, p_empty=0.6)
+        b2s, b2t = cst_blank(rng, p_empty=0.6)
+        s = cst_ident(rng)
+        parts.append("%s %s i%s" % (b1s, b2s, _hx(s.encode())))
+        text += b1t + "." + b2t + s
+        canon += "." + s
+    return "%s p%d%s" % (ser, n, "".join(" " + p for p in parts)), text, canon
+
+
+def cst_anns(rng):
+    n = rng.choice([1, 1, 2, 3])
+    sers, text, canon = [], "(", []
+    for j in range(n):
+        b1s, b1t = cst_blank(rng) if j == 0 else ("b0", "")
+        key = rng.choice(["pilota.name", "a", "_k", "x.y.z", "a..b", "a.", "go.tag", "k9_"])
+        b2s, b2t = cst_blank(rng)
+        b3s, b3t = cst_blank(rng)
+        ls, lt, lc = cst_lit(rng)
+        b4s, b4t = cst_blank(rng)
+        ss, st = cst_sep(rng)
+        sers.append("%s i%s %s %s %s %s %s" % (b1s, _hx(key.encode()), b2s, b3s, ls, b4s, ss))
+        text += b1t + key + b2t + "=" + b3t + lt + b4t + st
+        canon.append(key + "=" + lc)
+    return "n%d %s" % (n, " ".join(sers)), text + ")", "[" + " ".join(canon) + "]"
+
+
+def cst_cpp(rng, p=0.15):
+    if rng.random() >= p:
+        return "c0", "", "-"
+    b1s, b1t = cst_blank(rng, mandatory=True)
+    b2s, b2t = cst_blank(rng, mandatory=True)
+    ls, lt, lc = cst_lit(rng)
+    return "c1 %s %s %s" % (b1s, b2s, ls), b1t + "cpp_type" + b2t + lt, lc
+
+
+def cst_ty(rng, depth, simple):
+    """(serialized, text, canon, ends_word)"""
+    if depth <= 0 or rng.random() < 0.4:
+        if rng.random() < 0.5:
+            b = rng.choice(BASE_TYPES)
+            return "base " + b, b, b, True
+        ps, pt, pc = cst_path(rng, forbid_first=BASE_TYPES + ["list", "set", "map"])
+        return "path " + ps, pt, "(path %s)" % pc, True
+    kind = rng.choice(["list", "set", "map"])
+    cs, ct, cc = ("c0", "", "-") if simple else cst_cpp(rng)
+    b1s, b1t = cst_blank(rng)
+    b2s, b2t = cst_blank(rng)
+    ins, it, ic, _ = cst_type(rng, depth - 1, simple)
+    b3s, b3t = cst_blank(rng)
+    if kind == "list":
+        return ("list %s %s %s %s %s" % (b1s, b2s, ins, b3s, cs), "list" + b1t + "<" + b2t + it + b3t + ">" + ct,
+                "(list %s %s)" % (ic, cc), ct == "" and False)
+    if kind == "set":
+        return ("set %s %s %s %s %s" % (cs, b1s, b2s, ins, b3s), "set" + ct + b1t + "<" + b2t + it + b3t + ">",
+                "(set %s %s)" % (ic, cc), False)
+    semi = rng.random() < 0.5
+    b4s, b4t = cst_blank(rng)
+    vs, vt, vc, _ = cst_type(rng, depth - 1, simple)
+    b5s, b5t = cst_blank(rng)
+    return ("map %s %s %s %s %s %s %s %s %s" % (cs, b1s, b2s, ins, b3s, ";" if semi else ",", b4s, vs, b5s),
+            "map" + ct + b1t + "<" + b2t + it + b3t + (";" if semi else ",") + b4t + vt + b5t + ">",
+            "(map %s %s %s)" % (ic, vc, cc), False)
+
+
+def cst_type(rng, depth, simple):
+    ts, tt, tc, ew = cst_ty(rng, depth, simple)
+    if simple or rng.random() < 0.8:
+        return "T %s N" % ts, tt, "(type %s [])" % tc, ew
+    bs, bt = cst_blank(rng)
+    as_, at, ac = cst_anns(rng)
+    return "T %s A %s %s" % (ts, bs, as_), tt + bt + at, "(type %s %s)" % (tc, ac), False
+
+
+def gen_cst_type(rng, depth, simple=None):
+    """(serialized CST, text printed by Python, canonical tree of the erased type, simple?)"""
+    simple = (rng.random() < 0.5) if simple is None else simple
+    ser, text, canon, _ = cst_type(rng, depth, simple)
+    return ser, text, canon, simple
